@@ -20,7 +20,9 @@ EXPLANATION = ("Named arguments. R1 (exhaustive over every generator macro defin
                "list order. R4 (join/split agreement in _format_and_split_arguments): one placeholder per pair is appended, the "
                "separator is appended only between placeholders, the splitter searches for that same separator (the whole of it, "
                "not a part) and skips its full length, the i-th piece is stored as the value of the i-th pair and the remainder as "
-               "the last one; the values are sanitised only after the split (the separator itself is non-printable).")
+               "the last one; the values are sanitised only after the split (the separator itself is non-printable)."
+               " R3g-i: the JSON sink's template copy, its newline rewrite, and the key/value loop exactly when a list exists. R4f: the splitter keeps nothing between statements. R5b: the escaped-brace test is made on the first '{' found from first + 1 on, only when one was found. R7t-R9 (= C03.R4t, C10.R2, C14.R1h): the pairs travel with the event and never stay behind in a slot; the JSON line is written whole.")
+TECHNIQUE = 'static analysis: custom checker over clang AST/CFG facts (macro-expansion witnesses, join/split agreement, path rules) plus a compile-time witness (static_assert table of 30k templates evaluated by the compiler) for the constexpr named-args flag'
 NOT_DECIDED = ("The brace scanner for every template, values that contain the whole three-byte separator (a known dynamic risk: R4 "
                "decides that join and split agree on the separator, not that no value contains it), JSON escaping (excluded by the "
                "property), equality of text with positional formatting.")
@@ -356,9 +358,29 @@ def r5_placeholder_scanner(ctx, facts):
                     ok_b = any(isnode(n) and n.get("k") == "BinaryOperator" and n["op"] == "=" and var_ref(n["lhs"]) == openv and
                                any(isnode(x) and x["k"] == "BinaryOperator" and x["op"] == "+" and var_ref(x["lhs"]) == second and const_val(x["rhs"]) == 1 for x in walk(n["rhs"]))
                                for n in after)
-    ctx.ob("C19.R5b", "_process_named_args_format_message:escaped-open-brace", ok_b,
-           "\"{{\" is an escaped brace exactly when the second '{' directly follows the first (second - 1 == first); the scan then resumes "
-           "behind the second one", fn=f)
+    # ... the second brace is the first '{' behind the first one (searched from first + 1) and the adjacency test is made on the 'found' outcome
+    sec_ok = False
+    if ok_b:
+        si = inits.get(second)
+        st = None
+        if isnode(si):
+            for x in walk(si):
+                if is_call(x, r"basic_string_view<.*>::(find_first_of|find)$") and var_ref(call_obj(x)) == tpl and \
+                        any(y["k"] == "CharacterLiteral" and y.get("val") == 123 for y in walk(x["args"][0])) and len(x["args"]) > 1:
+                    st = strip(x["args"][1], casts=True)
+        from_next = isnode(st) and st["k"] == "BinaryOperator" and st["op"] == "+" and var_ref(st["lhs"]) == openv and const_val(st["rhs"]) == 1
+        found_e = []
+        for bid2, b2 in g.blocks.items():
+            c2 = g.term_cond(bid2)
+            nc2 = norm_cmp(c2) if c2 is not None else None
+            if nc2 and nc2[0] in ("==", "!=") and any(var_ref(x) == second for x in walk(c2)) and any(x["k"] == "DeclRefExpr" and x.get("name", "").endswith("npos") for x in walk(c2)):
+                found_e.append((bid2, "T" if nc2[0] == "!=" else "F"))
+        adj = [tnode(g, bid3) for bid3 in g.blocks if g.term_cond(bid3) is not None and norm_cmp(g.term_cond(bid3)) and norm_cmp(g.term_cond(bid3))[0] == "==" and
+               any(var_ref(x) == second for x in walk(g.term_cond(bid3))) and any(var_ref(x) == openv for x in walk(g.term_cond(bid3)))]
+        sec_ok = from_next and bool(found_e) and bool(adj) and not g.exists_path([g.entry_node], adj, avoid_edges=found_e)
+    ctx.ob("C19.R5b", "_process_named_args_format_message:escaped-open-brace", ok_b and sec_ok,
+           "\"{{\" is an escaped brace exactly when the second '{' — the first one found from first + 1 on, tested only when one was "
+           "found — directly follows the first (second - 1 == first); the scan then resumes behind the second one", fn=f)
     # R5c: literal text is carried over verbatim: what precedes the placeholder from the end of the previous one, and the tail
     tail = [c for c in cut if c is not inside]
     ok_c = len(tail) >= 2
